@@ -52,8 +52,10 @@ package kv
 //@   requires dbOK(s)
 //@   modifies *s.crdt.Mast
 //@   ensures readonly: imp(s.readonly, result == ErrReadOnly && *s.crdt.Mast == old(*s.crdt.Mast))
-//@   ensures stored: imp(result == nil, has(T(*s.crdt.Mast), akey(key)) && T(*s.crdt.Mast)[akey(key)] == updated(old(has(T(*s.crdt.Mast), akey(key))), old(T(*s.crdt.Mast)[akey(key)]), crdtpub.Value{ModEpochNanos: wrap64(ns(when)), TombstoneSinceEpochNanos: wrap64(ns(when))}, ite(s.crdt.Source != nil, *s.crdt.Source, "")))
+//@   ensures on-join.stored: imp(result == nil, has(T(*s.crdt.Mast), akey(key)) && T(*s.crdt.Mast)[akey(key)] == updated(old(has(T(*s.crdt.Mast), akey(key))), old(T(*s.crdt.Mast)[akey(key)]), crdtpub.Value{ModEpochNanos: wrap64(ns(when)), TombstoneSinceEpochNanos: wrap64(ns(when))}, ite(s.crdt.Source != nil, *s.crdt.Source, "")))
 //@   ensures others: forall a int :: imp(result == nil && a != akey(key), has(T(*s.crdt.Mast), a) == old(has(T(*s.crdt.Mast), a)) && T(*s.crdt.Mast)[a] == old(T(*s.crdt.Mast)[a]))
+//@   ensures buried: imp(result == nil && wrap64(ns(when)) != 0 && !(old(has(T(*s.crdt.Mast), akey(key))) && old(tomb(T(*s.crdt.Mast)[akey(key)]))), tomb(T(*s.crdt.Mast)[akey(key)]) && T(*s.crdt.Mast)[akey(key)].TombstoneSinceEpochNanos == wrap64(ns(when)))
+//@   ensures key-present: imp(result == nil, has(T(*s.crdt.Mast), akey(key)))
 
 //@ func (*DB).Get
 //@   requires dbOK(s) && typeis(value, *crdtpub.Value) && value.(*crdtpub.Value) != nil
@@ -105,13 +107,14 @@ package kv
 // ---------------------------------------------------------------------------
 // Cursors over a snapshot of the tree (properties C06, C09, C17).
 //@ func (*DB).Cursor
+//@   option seqtree
 //@   requires dbOK(d)
 //@   modifies nothing
 //@   ensures imp(err == nil, result0 != nil && fresh(result0) && result0.Cursor != nil && fresh(result0.Cursor) && gf(result0.Cursor, "snap") == *d.crdt.Mast && 0 <= seqN(*d.crdt.Mast) && seqN(*d.crdt.Mast) == mastSize(*d.crdt.Mast) && 0 <= gf(result0.Cursor, "pos") && gf(result0.Cursor, "pos") <= seqN(*d.crdt.Mast))
 //@   ensures imp(err != nil, result0 == nil)
-//@   ensures seq-in-tree: forall i int :: imp(err == nil && 0 <= i && i < seqN(*d.crdt.Mast) && seqValTag(*d.crdt.Mast, i) == iface(crdtpub.Value{}).tag, has(T(*d.crdt.Mast), akey(iface2(seqKeyTag(*d.crdt.Mast, i), seqKeyBox(*d.crdt.Mast, i)))) && T(*d.crdt.Mast)[akey(iface2(seqKeyTag(*d.crdt.Mast, i), seqKeyBox(*d.crdt.Mast, i)))] == iface2(seqValTag(*d.crdt.Mast, i), seqValBox(*d.crdt.Mast, i)).(crdtpub.Value))
-//@   ensures one-position-per-key: forall i int :: imp(err == nil && 0 <= i && i < seqN(*d.crdt.Mast), seqIdx(*d.crdt.Mast, akey(iface2(seqKeyTag(*d.crdt.Mast, i), seqKeyBox(*d.crdt.Mast, i)))) == i)
-//@   ensures tree-in-seq: forall a int :: imp(err == nil && has(T(*d.crdt.Mast), a), 0 <= seqIdx(*d.crdt.Mast, a) && seqIdx(*d.crdt.Mast, a) < seqN(*d.crdt.Mast) && akey(iface2(seqKeyTag(*d.crdt.Mast, seqIdx(*d.crdt.Mast, a)), seqKeyBox(*d.crdt.Mast, seqIdx(*d.crdt.Mast, a)))) == a)
+//@   ensures on-seqtree.seq-in-tree: forall i int :: imp(err == nil && 0 <= i && i < seqN(*d.crdt.Mast) && seqValTag(*d.crdt.Mast, i) == iface(crdtpub.Value{}).tag, has(T(*d.crdt.Mast), akey(iface2(seqKeyTag(*d.crdt.Mast, i), seqKeyBox(*d.crdt.Mast, i)))) && T(*d.crdt.Mast)[akey(iface2(seqKeyTag(*d.crdt.Mast, i), seqKeyBox(*d.crdt.Mast, i)))] == iface2(seqValTag(*d.crdt.Mast, i), seqValBox(*d.crdt.Mast, i)).(crdtpub.Value))
+//@   ensures on-seqtree.one-position-per-key: forall i int :: imp(err == nil && 0 <= i && i < seqN(*d.crdt.Mast), seqIdx(*d.crdt.Mast, akey(iface2(seqKeyTag(*d.crdt.Mast, i), seqKeyBox(*d.crdt.Mast, i)))) == i)
+//@   ensures on-seqtree.tree-in-seq: forall a int :: imp(err == nil && has(T(*d.crdt.Mast), a), 0 <= seqIdx(*d.crdt.Mast, a) && seqIdx(*d.crdt.Mast, a) < seqN(*d.crdt.Mast) && akey(iface2(seqKeyTag(*d.crdt.Mast, seqIdx(*d.crdt.Mast, a)), seqKeyBox(*d.crdt.Mast, seqIdx(*d.crdt.Mast, a)))) == a)
 
 // Get unwraps the entry at the cursor (every entry of a crdt tree is a crdt.Value)
 //@ spec valueTag() int = iface(crdtpub.Value{}).tag
